@@ -620,7 +620,7 @@ def jsonable(x):
 
 
 def flat_results(res, nmeas):
-    if nmeas == 1:
+    if nmeas == 1 or not isinstance(res, (tuple, list)):
         return [res]
     return list(res)
 
@@ -857,6 +857,10 @@ def run_case(ci, c):
         run["exec"] = "ok_shots"
         return run
     vals = flat_results(final, len(ms))
+    if len(ms) > 1 and (not isinstance(final, (tuple, list)) or len(final) != len(ms)):
+        run["ref"] = "numpy"
+        run["mismatch"] = [{"m": "number of results", "err": 9.9, "got": jsonable(np.shape(final)), "ref": jsonable(len(ms))}]
+        return run
     run["shapes"] = [list(np.shape(v)) for v in vals]
     wireless = any(m["kind"] in ("state",) or (m["kind"] == "probs" and m["ws"] is None) for m in mref)
     reg = list(dev.wires) if (dev.wires is not None and wireless) else list(tape.wires)
